@@ -702,6 +702,12 @@ func bClassify(err error) string {
 		return "overfill"
 	case has("invalid units to be filled") && has("but minimum is"):
 		return "underfill"
+	case has("got duplicate diff"):
+		return "diff-duplicate"
+	case has("is above maximum height"):
+		return "diff-new-expiry"
+	case has("new version is invalid"):
+		return "diff-new-version"
 	case has("got diff for uninvolved"):
 		return "diff-uninvolved"
 	case has("unexpected ending balance"):
